@@ -650,7 +650,9 @@ func (m *Model) Eval(n *Node, inst *jv.V, scope []*Node) (Result, error) {
 	m.depth++
 	defer func() { m.depth-- }()
 	m.work++
-	if m.work > workBudget {
+	if m.work > workBudget || m.depth > 3000 {
+		// (the depth bound catches an in-place reference cycle, which no generator emits on purpose
+		// but a document read under another draft than it was written for may contain)
 		return Result{}, ErrBudget
 	}
 	if m.Trace != nil {
